@@ -36,6 +36,7 @@ type c11history struct {
 	Kinds       []string
 	Bundle      bool // rejections of acknowledgements are sent inside a container, in front of the next answers
 	Back        bool // every second rotation returns to the salt that was valid two rotations ago (A -> B -> A)
+	OddSeq      bool // the server numbers its bad_server_salt notifications like content-related messages (odd seq_no): the client has to acknowledge them
 }
 
 func c11histories(c *wk.Ctx) []c11history {
@@ -87,6 +88,11 @@ func c11histories(c *wk.Ctx) []c11history {
 		c11history{StoreBroken: true, Steps: []c11step{{Rejected: 1}}, Kinds: []string{"object"}},
 		c11history{StoreBroken: true, Steps: []c11step{{Accepted: 2, Rejected: 2}, {Rejected: 1}}, Kinds: rpcKinds},
 		c11history{StoreBroken: true, Fresh: true, Steps: []c11step{{Announce: true, Accepted: 1}, {Accepted: 1, Rejected: 1}}, Kinds: rpcKinds})
+	out = append(out,
+		c11history{OddSeq: true, Steps: []c11step{{Rejected: 1}}, Kinds: []string{"object"}},
+		c11history{OddSeq: true, Steps: []c11step{{Accepted: 1, Rejected: 2}, {Rejected: 1}}, Kinds: rpcKinds},
+		c11history{OddSeq: true, Fresh: true, Bundle: true, Steps: []c11step{{Accepted: 2, Rejected: 1}}, Kinds: rpcKinds},
+		c11history{OddSeq: true, MemStore: true, Steps: []c11step{{Rejected: 1, Times: 4}}, Kinds: rpcKinds})
 	out = append(out, c11history{Steps: []c11step{{Announce: true, Accepted: 1}}, Kinds: []string{"object"}},
 		c11history{Steps: []c11step{{Announce: true}, {Rejected: 2}}, Kinds: rpcKinds},
 		c11history{Fresh: true, Steps: []c11step{{Announce: true, Accepted: 2}, {Accepted: 1, Rejected: 1}}, Kinds: rpcKinds})
@@ -105,7 +111,7 @@ func c11(c *wk.Ctx) {
 	for k := 0; k < c.Pick(20, 1000); k++ {
 		if c.Mine(idx) {
 			r := c.Rand(idx)
-			h := c11history{Fresh: r.Intn(4) == 0, Kinds: rpcKinds, Bundle: r.Intn(3) == 0, Back: r.Intn(3) == 0, StoreBroken: r.Intn(6) == 0, MemStore: r.Intn(4) == 0}
+			h := c11history{Fresh: r.Intn(4) == 0, Kinds: rpcKinds, Bundle: r.Intn(3) == 0, Back: r.Intn(3) == 0, StoreBroken: r.Intn(6) == 0, MemStore: r.Intn(4) == 0, OddSeq: r.Intn(3) == 0}
 			for s := 1 + r.Intn(3); s > 0; s-- {
 				h.Steps = append(h.Steps, c11step{Accepted: r.Intn(4), Rejected: r.Intn(4), Announce: r.Intn(6) == 0, LateFirst: r.Intn(2) == 0, Twice: r.Intn(5) == 0})
 			}
@@ -156,7 +162,7 @@ func c11case(c *wk.Ctx, idx int, r *rand.Rand, h c11history) {
 				mu.Unlock()
 				return true
 			}
-			cn.SendEncrypted(refserver.Out{MsgID: e.srv.NextMsgID(3), SeqNo: cn.NextSeq(false), Body: bss}, cur, "bad_server_salt", nil)
+			cn.SendEncrypted(refserver.Out{MsgID: e.srv.NextMsgID(3), SeqNo: cn.NextSeq(h.OddSeq), Body: bss}, cur, "bad_server_salt", nil)
 			return true
 		},
 		Handler: func(e *rpcEnv, p pendingReq, in *mtp.Inner) bool {
